@@ -119,10 +119,37 @@ class Normaliser:
                 for v in a.get('variants', []):
                     key = a['path'] + '::' + v['name'] if a['kind'] == 'Enum' else a['path']
                     self.ctors[key] = (a['path'], v['name'], [f['name'] for f in v['fields']])
+        # private enums of the analysed crates (a decision encoded as `enum Admission { Granted, Surplus }` is threaded
+        # to the `match` that inspects it, like Option / Result)
+        self.local_enums = set()
+        for cn in crates:
+            c = prog.crates.get(cn)
+            if c is not None:
+                for a in c.adts:
+                    if a['kind'] == 'Enum':
+                        self.local_enums.add(a['path'])
         self.inlinable = {}
         for p, b in prog.bodies.items():
             if self._inlinable(b):
                 self.inlinable[p] = b
+        # coroutine bodies of private async fns (keyed by the coroutine's own path = the callee of its poll)
+        self.awaitable = {}
+        for p, b in prog.bodies.items():
+            if not b.is_coroutine or self._crate_of(p) not in self.crates:
+                continue
+            ctor = prog.bodies.get(b.j.get('parent') or '')
+            if ctor is None or ctor.kind not in ('Fn', 'AssocFn') or ctor.j.get('vis') == 'pub' or ctor.j.get('impl_trait') or ctor.j.get('in_trait'):
+                continue
+            if ctor.path in self.keep or ctor.name in self.keep or b.path in self.keep or b.name in self.keep:
+                continue
+            # the constructor only builds the coroutine from its parameters
+            aggs = [s for blk in ctor.blocks for s in blk.stmts if s.kind == 'assign' and s.rv.kind == 'agg' and s.rv.j.get('ak') == 'coroutine' and s.rv.j.get('def') == p]
+            if len(aggs) != 1 or len(ctor.blocks) > 3:
+                continue
+            # no direct recursion
+            if any(blk.term.kind == 'call' and blk.term.rcallee in (p, ctor.path) for blk in b.blocks):
+                continue
+            self.awaitable[p] = (b, ctor, aggs[0])
 
     def _crate_of(self, path):
         p = path.lstrip('<')
@@ -203,6 +230,17 @@ class Normaliser:
                     self._inline_call(bj, x, callee.j, closure=False)
                     inlined.append(p); changed = True
                     continue
+                # `helper(..).await` on a private async fn that is not role-bound: the helper's body takes the place of the await
+                acb = self.awaitable.get(p)
+                if acb is not None and body.is_coroutine and p != body.path and inlined.count(p) < 3:
+                    if self._inline_await(bj, x, acb):
+                        inlined.append(p); changed = True
+                        continue
+                # `?` applied to a value every definition of which is an explicit Ok / Err / Some / None (the result of an
+                # inlined helper): rewritten as the match it stands for, so that threading can follow each case
+                if strip_generics(c.get('fn', '')).endswith('Try::branch') and self._desugar_known_branch(bj, x):
+                    changed = True; inlined.append('desugar:known-branch')
+                    continue
                 # boolean / defaulting combinators of Option and Result: rewritten as the match they stand for
                 fn0 = strip_generics(c.get('fn', ''))
                 if fn0 in COMBINATORS and self._desugar_combinator(bj, x, fn0):
@@ -226,7 +264,7 @@ class Normaliser:
                             and self._crate_of(cl) in self.crates:
                         self._inline_call(bj, x, self.prog.bodies[cl].j, closure=True)
                         inlined.append(cl); changed = True
-        if thread_jumps(bj):
+        if thread_jumps(bj, enums=self.local_enums):
             inlined.append('jump-threading')
         if not inlined:
             return body
@@ -298,6 +336,187 @@ class Normaliser:
         bj['blocks'].append({'cleanup': False, 'stmts': [{'k': 'assign', 'p': copy.deepcopy(t['dest']), 'rv': {'k': 'use', 'op': mv}, 'line': line}],
                              'term': {'k': 'goto', 't': t['t'], 'line': line}})
         bj['blocks'].append({'cleanup': False, 'stmts': [], 'term': {'k': 'unreachable', 'line': line}})
+        return True
+
+    def _all_defs(self, bj, l):
+        out = []
+        for i, blk in enumerate(bj['blocks']):
+            for s in blk['stmts']:
+                if s['k'] == 'assign' and s['p']['l'] == l and not s['p']['pr']:
+                    out.append(('stmt', i, s))
+            tt = blk['term']
+            if tt['k'] == 'call' and tt.get('dest') and tt['dest']['l'] == l and not tt['dest'].get('pr'):
+                out.append(('call', i, tt))
+        return out
+
+    def _desugar_known_branch(self, bj, x):
+        blk = bj['blocks'][x]
+        t = blk['term']
+        args = t.get('args', [])
+        if len(args) != 1 or 'k' in args[0] or t.get('t') is None or not t.get('dest') or t['dest'].get('pr'):
+            return False
+        ap = args[0].get('m') or args[0].get('c')
+        if ap.get('pr'):
+            return False
+        # every definition (through plain moves) is an aggregate of Result / Option
+        l = ap['l']; adt = None
+        seen = set()
+        work = [l]
+        while work:
+            y = work.pop()
+            if y in seen:
+                continue
+            seen.add(y)
+            ds = self._all_defs(bj, y)
+            if not ds:
+                return False
+            for d in ds:
+                if d[0] != 'stmt':
+                    return False
+                rv = d[2]['rv']
+                if rv['k'] == 'use' and 'k' not in rv['op'] and not (rv['op'].get('m') or rv['op'].get('c')).get('pr'):
+                    work.append((rv['op'].get('m') or rv['op'].get('c'))['l'])
+                elif rv['k'] == 'agg' and rv.get('ak') == 'adt' and rv.get('adt') in ('std::result::Result', 'std::option::Option'):
+                    adt = rv['adt']
+                else:
+                    return False
+        if adt is None:
+            return False
+        line = t.get('line', 0)
+        variants = {'std::option::Option': {'0': 'None', '1': 'Some'}, 'std::result::Result': {'0': 'Ok', '1': 'Err'}}[adt]
+        good = 'Ok' if adt.endswith('Result') else 'Some'
+        bad = 'Err' if adt.endswith('Result') else 'None'
+        lv = self._new_local(bj, ap.get('ty', adt), line, like=l)
+        ld = self._new_local(bj, 'isize', line)
+        blk['stmts'].append(_assign(lv, copy.deepcopy(args[0]), line))
+        blk['stmts'].append({'k': 'assign', 'p': {'l': ld, 'pr': [], 'own': [], 'ty': 'isize'}, 'rv': {'k': 'discr', 'p': {'l': lv, 'pr': [], 'own': [], 'ty': ''}}, 'line': line})
+        nb = len(bj['blocks'])
+        gi = [k for k, v in variants.items() if v == good][0]
+        bi = [k for k, v in variants.items() if v == bad][0]
+        blk['term'] = {'k': 'switch', 'd': {'m': {'l': ld, 'pr': [], 'own': [], 'ty': 'isize'}}, 'arms': [[gi, nb], [bi, nb + 1]], 'otherwise': nb + 2, 'dty': 'isize',
+                       'on': {'l': lv, 'pr': [], 'own': [], 'ty': ''}, 'adt': adt, 'variants': variants, 'line': line, 'desugared': 'Try::branch'}
+        dest = t['dest']
+        cf = 'std::ops::ControlFlow'
+        bj['blocks'].append({'cleanup': False, 'stmts': [{'k': 'assign', 'p': copy.deepcopy(dest), 'rv': {'k': 'agg', 'ak': 'adt', 'adt': cf, 'variant': 'Continue', 'fields': ['0'],
+                             'ops': [{'m': {'l': lv, 'pr': ['@' + good, '.0'], 'own': [None, adt], 'ty': ''}}]}, 'line': line}],
+                             'term': {'k': 'goto', 't': t['t'], 'line': line}})
+        lr = self._new_local(bj, adt, line)
+        bad_ops = [{'m': {'l': lv, 'pr': ['@Err', '.0'], 'own': [None, adt], 'ty': ''}}] if bad == 'Err' else []
+        bj['blocks'].append({'cleanup': False, 'stmts': [
+            {'k': 'assign', 'p': {'l': lr, 'pr': [], 'own': [], 'ty': adt}, 'rv': {'k': 'agg', 'ak': 'adt', 'adt': adt, 'variant': bad, 'fields': ['0'] if bad_ops else [], 'ops': bad_ops}, 'line': line},
+            {'k': 'assign', 'p': copy.deepcopy(dest), 'rv': {'k': 'agg', 'ak': 'adt', 'adt': cf, 'variant': 'Break', 'fields': ['0'], 'ops': [{'m': {'l': lr, 'pr': [], 'own': [], 'ty': adt}}]}, 'line': line}],
+            'term': {'k': 'goto', 't': t['t'], 'line': line}})
+        bj['blocks'].append({'cleanup': False, 'stmts': [], 'term': {'k': 'unreachable', 'line': line}})
+        return True
+
+    def _def_of(self, bj, l):
+        """the unique definition of local l: ('stmt', block idx, stmt) | ('call', block idx, term) | None"""
+        found = []
+        for i, blk in enumerate(bj['blocks']):
+            for s in blk['stmts']:
+                if s['k'] == 'assign' and s['p']['l'] == l and not s['p']['pr']:
+                    found.append(('stmt', i, s))
+            tt = blk['term']
+            if tt['k'] == 'call' and tt.get('dest') and tt['dest']['l'] == l and not tt['dest'].get('pr'):
+                found.append(('call', i, tt))
+        return found[0] if len(found) == 1 else None
+
+    def _inline_await(self, bj, x, acb):
+        """x: index of the block polling the coroutine `acb[0]`.  Rewrites ctor call .. poll loop .. Ready arm into the body."""
+        cb, ctor, agg = acb
+        blocks = bj['blocks']
+        t = blocks[x]['term']
+        if not t.get('dest') or t['dest'].get('pr') or t.get('t') is None:
+            return False
+        p_local = t['dest']['l']
+        sw = blocks[t['t']]['term']
+        if sw['k'] != 'switch' or sw.get('adt') != 'std::task::Poll' or not sw.get('variants'):
+            return False
+        arms = {sw['variants'].get(k): b_ for k, b_ in sw['arms']}
+        ready, pending = arms.get('Ready'), arms.get('Pending')
+        if ready is None or pending is None:
+            return False
+        # the yield of this await and its cancellation continuation
+        cur = pending; yb = None
+        for _ in range(8):
+            tt = blocks[cur]['term']
+            if tt['k'] == 'yield':
+                yb = tt; break
+            cur = tt.get('t')
+            if cur is None or tt['k'] not in ('goto', 'drop'):
+                break
+        if yb is None:
+            return False
+        cancel_to = yb.get('cd')
+        # back from the polled pin to the constructor call
+        if not t.get('args') or 'k' in t['args'][0]:
+            return False
+        l = (t['args'][0].get('m') or t['args'][0].get('c'))['l']
+        ctor_blk = None
+        for _ in range(12):
+            d = self._def_of(bj, l)
+            if d is None:
+                return False
+            if d[0] == 'stmt':
+                rv = d[2]['rv']
+                if rv['k'] == 'use' and 'k' not in rv['op']:
+                    l = (rv['op'].get('m') or rv['op'].get('c'))['l']; continue
+                if rv['k'] in ('ref', 'copyderef'):
+                    l = rv['p']['l']; continue
+                return False
+            tt = d[2]
+            c = tt['f'].get('k', {}) if 'k' in tt.get('f', {}) else {}
+            if (c.get('rfn') or c.get('fn')) == ctor.path:
+                ctor_blk = d[1]; break
+            fn = strip_generics(c.get('fn', ''))
+            if fn.endswith('IntoFuture::into_future') or fn.endswith('Pin::new_unchecked') or fn.endswith('Pin::new'):
+                a0 = tt['args'][0]
+                if 'k' in a0:
+                    return False
+                l = (a0.get('m') or a0.get('c'))['l']; continue
+            return False
+        if ctor_blk is None:
+            return False
+        A = blocks[ctor_blk]
+        at = A['term']
+        line = at.get('line', 0)
+        lo = len(bj['locals']); bo = len(blocks)
+        cj = copy.deepcopy(cb.j)
+        bj['locals'].extend(cj['locals'])
+        for dbg in cj.get('debug', []):
+            if 'p' in dbg:
+                _remap_place(dbg['p'], lo)
+                dbg.pop('arg', None)
+                bj['debug'].append(dbg)
+        # captured variables: upvar j of the coroutine is constructor parameter `agg.ops[j]`
+        for j, op in enumerate(agg.rv.ops):
+            if op.kind == 'const':
+                continue
+            k = op.place.local - 1            # index of the constructor argument
+            if 0 <= k < len(at.get('args', [])):
+                A['stmts'].append({'k': 'assign', 'p': {'l': lo + 1, 'pr': ['.%d' % j], 'own': [None], 'ty': ''},
+                                   'rv': {'k': 'use', 'op': copy.deepcopy(at['args'][k])}, 'line': line})
+        # the task context the helper's own awaits use
+        A['stmts'].append(_assign(lo + 2, {'c': {'l': 2, 'pr': [], 'own': [], 'ty': ''}}, line))
+        A['term'] = {'k': 'goto', 't': bo, 'line': line, 'inlined_await': cj['path']}
+        unwind_to = t.get('u') if isinstance(t.get('u'), int) else None
+        for cblk in cj['blocks']:
+            kind = cblk['term']['k']
+            ln = cblk['term'].get('line', 0)
+            nb = _remap_block(cblk, lo, bo, None, None, unwind_to)
+            if kind == 'return':
+                nb['stmts'].append({'k': 'assign', 'p': {'l': p_local, 'pr': [], 'own': [], 'ty': ''},
+                                    'rv': {'k': 'agg', 'ak': 'adt', 'adt': 'std::task::Poll', 'variant': 'Ready', 'fields': ['0'],
+                                           'ops': [{'m': {'l': lo, 'pr': [], 'own': [], 'ty': ''}}]}, 'line': ln})
+                nb['term'] = {'k': 'goto', 't': ready, 'line': ln, 'inlined_return': True}
+            elif kind == 'coroutine_drop':
+                nb['term'] = {'k': 'goto', 't': cancel_to, 'line': ln} if cancel_to is not None else {'k': 'unreachable', 'line': ln}
+            elif kind == 'yield':
+                # for the compiler's layout of the OUTER coroutine this suspension is the outer await
+                nb['term'].setdefault('await_line', yb.get('await_line', yb.get('line', 0)))
+                nb['term']['inlined_from'] = cj['path']
+            blocks.append(nb)
+        _prune_unreachable(bj)
         return True
 
     def _tuple_arity(self, bj, place):
@@ -392,8 +611,12 @@ class Normaliser:
 THREAD_ENUMS = ('std::option::Option', 'std::result::Result', 'std::ops::ControlFlow')
 
 
+# calls a threaded path may run through (cloning them changes no verdict: smart-pointer derefs, the explicit release of a guard)
+THREAD_THROUGH_CALLS = ('std::ops::Deref::deref', 'std::ops::DerefMut::deref_mut', 'std::mem::drop')
+
+
 def _succ_normal(t):
-    """the single normal successor of a goto / drop terminator, else None"""
+    """the single normal successor of a goto / drop / assert / harmless-call terminator, else None"""
     if t['k'] == 'goto':
         return t['t']
     if t['k'] == 'drop':
@@ -408,7 +631,7 @@ def _bare_local(o):
     return p['l'] if p is not None and not p.get('pr') else None
 
 
-def thread_jumps(bj, max_clones=60):
+def thread_jumps(bj, max_clones=60, enums=()):
     """jump threading for boolean flags: when a block assigns `_f = const true|false` and every path from there to a
     `switch` on (a copy of) _f runs through single-successor blocks that do not redefine it, the path is cloned and its
     switch replaced by the arm that is taken.  Infeasible paths through `let ok = helper(); if ok {..}` joins disappear."""
@@ -439,7 +662,7 @@ def thread_jumps(bj, max_clones=60):
                 rv = s['rv']
                 if rv['k'] == 'use' and 'k' in rv['op'] and rv['op']['k'].get('v') in ('true', 'false') and rv['op']['k'].get('ty') == 'bool':
                     flags[l] = rv['op']['k']['v']
-                elif rv['k'] == 'agg' and rv.get('ak') == 'adt' and rv.get('variant') and rv.get('adt') in THREAD_ENUMS:
+                elif rv['k'] == 'agg' and rv.get('ak') == 'adt' and rv.get('variant') and (rv.get('adt') in THREAD_ENUMS or rv.get('adt') in enums):
                     flags[l] = '@' + rv['variant']          # a value of known variant: `switch discriminant(l)` is decided
                 elif rv['k'] == 'use' and _bare_local(rv['op']) in flags:
                     flags[l] = flags[_bare_local(rv['op'])]
@@ -452,7 +675,7 @@ def thread_jumps(bj, max_clones=60):
             cur = nxt
             target = None
             fl = dict(flags)
-            while cur is not None and cur not in chain and cur != pi and len(chain) < 8:
+            while cur is not None and cur not in chain and cur != pi and len(chain) < 14:
                 B = blocks[cur]
                 if B.get('cleanup'):
                     break
@@ -460,6 +683,15 @@ def thread_jumps(bj, max_clones=60):
                 for s in B['stmts']:
                     if s['k'] != 'assign':
                         continue
+                    # cloned blocks must not compute anything: a temporary defined twice would blur every def-use analysis.
+                    # allowed: constants, copies / discriminants of flag locals, unit / enum aggregates
+                    rv_ = s['rv']
+                    simple = (rv_['k'] == 'use' and ('k' in rv_['op'] or _bare_local(rv_['op']) in fl)) or \
+                        (rv_['k'] == 'discr' and not rv_['p'].get('pr') and rv_['p']['l'] in fl) or \
+                        (rv_['k'] == 'agg' and not rv_.get('ops'))
+                    if not simple:
+                        ok = False
+                        break
                     if s['p'].get('pr'):
                         continue
                     l = s['p']['l']
@@ -472,8 +704,17 @@ def thread_jumps(bj, max_clones=60):
                         fl[l] = 'discr' + fl[rv['p']['l']]       # `_d = discriminant(_x)` with _x of known variant
                     else:
                         fl.pop(l, None)
+                if not ok:
+                    break
                 chain.append(cur)
                 tt = B['term']
+                if tt['k'] == 'call':
+                    # a call that takes a flag local (by move / reference is excluded by `addr`) or writes one ends the knowledge
+                    for a_ in tt.get('args', []):
+                        if _bare_local(a_) in fl:
+                            fl.pop(_bare_local(a_), None)
+                    if tt.get('dest') and not tt['dest'].get('pr'):
+                        fl.pop(tt['dest']['l'], None)
                 if tt['k'] == 'switch' and tt.get('variants') and _bare_local(tt['d']) in fl and str(fl[_bare_local(tt['d'])]).startswith('discr@'):
                     want = fl[_bare_local(tt['d'])][6:]
                     idx = [k_ for k_, v_ in tt['variants'].items() if v_ == want]
@@ -507,7 +748,7 @@ def thread_jumps(bj, max_clones=60):
                 nb = copy.deepcopy(blocks[c])
                 nb['threaded_from'] = c
                 if k < len(chain) - 1:
-                    if nb['term']['k'] in ('goto', 'drop'):
+                    if nb['term']['k'] in ('goto', 'drop', 'assert', 'call'):
                         nb['term']['t'] = base + k + 1
                 else:
                     nb['term'] = {'k': 'goto', 't': target, 'line': nb['term'].get('line', 0), 'threaded': True}
@@ -519,6 +760,31 @@ def thread_jumps(bj, max_clones=60):
         if changed:
             _blank_unreachable(bj)
     return n_clones
+
+
+def _prune_unreachable(bj):
+    """blank every block that cannot be reached from the entry any more (the poll loop of an inlined await)"""
+    blocks = bj['blocks']
+    seen = {0}
+    work = [0]
+    while work:
+        x = work.pop()
+        t = blocks[x]['term']
+        succ = []
+        for k in ('t', 'cd', 'otherwise'):
+            if isinstance(t.get(k), int):
+                succ.append(t[k])
+        if isinstance(t.get('u'), int):
+            succ.append(t['u'])
+        for a in t.get('arms', []):
+            succ.append(a[1])
+        for s in succ:
+            if s not in seen and 0 <= s < len(blocks):
+                seen.add(s); work.append(s)
+    for i, b in enumerate(blocks):
+        if i not in seen and (b['stmts'] or b['term']['k'] != 'unreachable'):
+            b['stmts'] = []
+            b['term'] = {'k': 'unreachable', 'line': b['term'].get('line', 0), 'blanked': True}
 
 
 def _blank_unreachable(bj):
@@ -616,6 +882,35 @@ def default_keep(prog):
         from .roles import ManagedRoles
         r = ManagedRoles(prog)
         keep |= {h.path for h in r.RETURN + r.TAKE}
+        # async helpers that carry a role of their own are not dissolved into the getter: the timeout wrapper and every
+        # coroutine that itself calls into user code (recycler, creator, hook runner)
+        if r.TIMEOUT_WRAPPER is not None:
+            keep.add(r.TIMEOUT_WRAPPER.path)
+        from .mcommon import is_dyn_call
+        from .analysis import sources as _sources
+        # the hook runner: the async fn that is handed one of the hook lists of the pool
+        for b in prog.bodies.values():
+            if not (b.path.startswith('deadpool::managed') or b.path.startswith('<deadpool::managed')):
+                continue
+            ban = None
+            for blk in b.blocks:
+                tt = blk.term
+                if tt.kind == 'call' and not blk.cleanup and tt.rcallee in prog.bodies and tt.args and tt.args[0].kind != 'const':
+                    cb = prog.bodies[tt.rcallee]
+                    if cb.kind in ('Fn', 'AssocFn') and any(s_.kind == 'assign' and s_.rv.kind == 'agg' and s_.rv.j.get('ak') == 'coroutine' for x_ in cb.blocks for s_ in x_.stmts):
+                        ban = ban or prog.an(b)
+                        if any(s_[0] == 'field' and s_[1].startswith(r.HOOKS + '.') for s_ in _sources(ban, tt.args[0])):
+                            keep.add(cb.path)
+                            for x_ in cb.blocks:
+                                for s_ in x_.stmts:
+                                    if s_.kind == 'assign' and s_.rv.kind == 'agg' and s_.rv.j.get('ak') == 'coroutine':
+                                        keep.add(s_.rv.j['def'])
+        for b in prog.bodies.values():
+            if b.is_coroutine and (b.path.startswith('deadpool::managed') or b.path.startswith('<deadpool::managed')):
+                for blk in b.blocks:
+                    tt = blk.term
+                    if tt.kind == 'call' and not blk.cleanup and (is_dyn_call(tt) or (tt.func.kind == 'const' and str(tt.func.const.get('fn', '')).startswith('deadpool::managed::Manager::'))):
+                        keep.add(b.path); break
     except Exception:
         pass
     try:
@@ -629,8 +924,7 @@ def default_keep(prog):
                 keep.add(b.path)
     except Exception:
         pass
-    for n in ('deadpool_postgres::StatementCache::get', 'deadpool_postgres::StatementCache::insert', 'deadpool_postgres::StatementCaches::attach',
-              'deadpool_postgres::StatementCaches::detach', 'deadpool_diesel::manager::RecyclingMethod::perform_recycle_check'):
+    for n in ('deadpool_postgres::StatementCache::get', 'deadpool_postgres::StatementCache::insert', 'deadpool_diesel::manager::RecyclingMethod::perform_recycle_check'):
         keep.add(n)
     return keep
 
